@@ -281,6 +281,8 @@ class DumpSites(Suite):
 
 def extra(ctx, tier):
     """which wire-feeding sites of the static table are exercised by a recipe"""
+    from ..schema_suites import HelperFlows
+    ctx.notes.extend("supplementary helper flow: " + n for n in HelperFlows.supp_notes)
     exercised = {HELPER_SITES[h][0] for h in HELPER_SITES}
     for s in static_sites():
         if s["feedsWire"]:
